@@ -26,7 +26,9 @@ Definition fin_style (st : Style XQ) : Prop :=
 Definition fin_input (i : LayoutInput XQ) : Prop :=
   size_all fin_opt (known_dimensions i) /\ size_all fin_opt (parent_size i) /\ size_all fin_avail (available_space i).
 
-Definition fin_measure (measure : MeasureFn XQ) : Prop := forall k a, size_all finite (measure k a).
+(* the measure function returns finite sizes when its arguments are finite *)
+Definition fin_measure (measure : MeasureFn XQ) : Prop :=
+  forall k a, size_all fin_opt k -> size_all fin_avail a -> size_all finite (measure k a).
 
 Definition nonneg (x : XQ) : Prop := 0 <= val x.
 Definition positive_ratio (st : Style XQ) : Prop :=
@@ -306,3 +308,14 @@ Proof.
   fin_destruct; destruct block; cbv [maybe_sub_of]; axis_crush.
 Qed.
 
+
+Lemma fin_m_avail_axis : forall block (S M X stretch : option XQ) (a : AvailableSpace XQ) (margin inset pb : XQ),
+  fin_opt S -> fin_opt M -> fin_opt X -> fin_opt stretch -> fin_avail a -> finite margin -> finite inset -> finite pb ->
+  fin_avail (m_avail_axis (m_kd_axis block S M X stretch pb) S M X a margin inset).
+Proof.
+  intros block S M X stretch a. intros.
+  destruct S, M, X, stretch, a; cbn [fin_opt fin_avail] in *; fin_destruct; destruct block;
+    cbv [m_kd_axis m_avail_axis forced maybe_max_of maybe_clamp_oo maybe_clamp_fo maybe_sub_af avail_map_definite_value
+         avail_maybe_set opt_or opt_unwrap_or option_map];
+    qsplit; cbn [fin_avail finite]; exact I.
+Qed.
